@@ -249,6 +249,29 @@ func (e *Env) eval(ex ast.Expr) (Val, bool) {
 		}
 		return e.fail("unsupported literal %s", n.Value)
 	case *ast.UnaryExpr:
+		if n.Op == token.AND {
+			// &x.f : the address of a field (mutexes are identified by their address)
+			if sel, ok := n.X.(*ast.SelectorExpr); ok {
+				base, ok := e.eval(sel.X)
+				if !ok {
+					return base, false
+				}
+				if base.K == KPtr && base.P.Kind == PObj {
+					if stt, ok := structOf(base.P.Elem); ok {
+						for i := 0; i < stt.NumFields(); i++ {
+							if stt.Field(i).Name() == sel.Sel.Name {
+								ft := stt.Field(i).Type()
+								if isOpaqueStruct(ft) {
+									return Val{K: KPtr, Typ: types.NewPointer(ft), P: &Ptr{Kind: PField, Base: base.P.Base, Elem: base.P.Elem, Field: i}}, true
+								}
+								return Val{K: KPtr, Typ: types.NewPointer(ft), P: x.fieldPtr(e.st, base.P, i)}, true
+							}
+						}
+					}
+				}
+			}
+			return e.fail("unsupported address expression %s", types.ExprString(ex))
+		}
 		v, ok := e.eval(n.X)
 		if !ok {
 			return v, false
